@@ -479,6 +479,17 @@ def execute(plan, ctx):
         ctx.log.emit("set", o=i, valid=valid, j=op.get("j"), how=op.get("how"), raised=type(raised).__name__ if raised else None)
         ctx.sig("set", custom[i], op.get("j", "ok"), op.get("how", "-"), len(objs))
         junk_bad = any((not isinstance(v_, str)) or v_ not in COLOURS for k_, v_ in list(passed.items()) if not (isinstance(k_, str) and k_ in AA)) if valid else False
+        if valid and raised is None and junk_bad:
+            # accepted, or refused quietly (values-wide validation without an exception)?  Both are allowed here;
+            # the rendering tells which
+            try:
+                html_now = objs[i].get_HTMLColorString()
+                if check_render(html_now, seqs[i], {a: pal[a] for a in AA}) is not None and check_render(html_now, seqs[i], pals[i]) is None:
+                    ctx.probe("rejected_for_a_non_residue_entry")
+                    valid = False
+                    op = dict(op, j=None, how="junk")
+            except Exception:
+                pass
         if valid and raised is not None and junk_bad:
             # all 20 residues have a standard colour, but an entry that is not a residue carries a non-standard one:
             # a validator that looks at every value may refuse this dictionary, one that looks at the residues accepts it
